@@ -124,6 +124,13 @@ impl Runner for SubprocessRunner {
                 let kind = err.kind();
                 let (stdout, stderr) = err.capture;
 
+                // an execution that ran into its timeout is aborted: it must not
+                // go on running (and writing) behind the back of what follows
+                if kind == ErrorKind::TimedOut {
+                    let _ = process.kill();
+                    let _ = process.wait();
+                }
+
                 // windows execution returns [`ErrorKind::BrokenPipe`] in case
                 // anything explicitly runs `exit <code>`
                 let exit = if cfg!(windows) {
